@@ -107,6 +107,7 @@ def parseDSOps : List String → Option (List DSOp)
 def DS.stepLine (s : DS) (toks : List String) : DS × String :=
   match toks with
   | ["new"] => (DS.init, "ok")
+  | ["new", _] => (DS.init, "ok")     -- per-case renaming of the elements (x ↦ x*scale+off) on the implementation side
   | _ =>
     match parseAliasOp s.mem toks with
     | some ws => let s' := s.run (ws.map (fun w => .write w.1 w.2)); (s', showSet s'.value)
@@ -179,6 +180,7 @@ def SR.diff (s : SR) (x : Nat) : Bool := s.mem s.src x && s.others.all (fun o =>
 def SR.stepLine (s : SR) (toks : List String) : SR × String :=
   match toks with
   | ["new"] => (SR.init, "ok")
+  | ["new", _] => (SR.init, "ok")
   | ["create", r, os] =>
     match r.toNat?, parseNats os with
     | some r, some os => let s' := s.step (.create r os); (s', showSet s'.value)
